@@ -98,6 +98,6 @@ pub fn key_states() -> Vec<(&'static str, Vec<Vec<&'static str>>)> {
         ("set", vec![vec!["SADD", "k", "a", "b", "c"]]),
         ("hash", vec![vec!["HSET", "k", "f", "1", "g", "2"]]),
         ("zset", vec![vec!["ZADD", "k", "1", "a", "2", "b"]]),
-        ("stream", vec![vec!["XADD", "k", "1-1", "f", "v"], vec!["XGROUP", "CREATE", "k", "g", "0-0"]]),
+        ("stream", vec![vec!["XADD", "k", "1-1", "f", "v"], vec!["XADD", "k", "2-2", "f", "w"], vec!["XGROUP", "CREATE", "k", "g", "0-0"], vec!["XREADGROUP", "GROUP", "g", "c", "COUNT", "1", "STREAMS", "k", ">"]]),
     ]
 }
